@@ -72,6 +72,11 @@ func guard(ind string, d, k int, kind int) string {
 }
 
 func handler(ind string, h int, level int, withOutput bool) string {
+	return handlerX(ind, h, level, withOutput, false)
+}
+
+// handlerX: with reraise the handler ends by raising a new default exception
+func handlerX(ind string, h int, level int, withOutput bool, reraise bool) string {
 	if h == hNone {
 		return ""
 	}
@@ -80,6 +85,10 @@ func handler(ind string, h int, level int, withOutput bool) string {
 		cls = "甲异常"
 	}
 	s := fmt.Sprintf("%s拦截%s：\n%s    （显示：%d）\n%s    （显示：其内容）\n", ind, cls, ind, level*10+9, ind)
+	if reraise {
+		s += fmt.Sprintf("%s    抛出异常：“boom”！\n", ind)
+		return s
+	}
 	if withOutput {
 		s += fmt.Sprintf("%s    输出 %d\n", ind, level*100+90)
 	}
@@ -90,12 +99,13 @@ type config struct {
 	h          [3]int
 	kind       int
 	handlerOut bool
+	reraise    bool // the handler of F2 ends by raising again
 	ctx        int  // how F1 calls F2: 0 plain, 1 in a 遍历 loop, 2 in a 每当 loop, 3 in a 如果 block
 	ext        bool // F2 lives in an imported module
 }
 
 func f2Source(c config) string {
-	return "如何F2？\n    输入D、K、Z\n    （显示：21）\n" + guard("    ", 2, 1, c.kind) + "    （显示：22）\n" + guard("    ", 2, 2, c.kind) + "    （显示：23）\n    输出 200\n" + handler("    ", c.h[2], 2, c.handlerOut)
+	return "如何F2？\n    输入D、K、Z\n    （显示：21）\n" + guard("    ", 2, 1, c.kind) + "    （显示：22）\n" + guard("    ", 2, 2, c.kind) + "    （显示：23）\n    输出 200\n" + handlerX("    ", c.h[2], 2, c.handlerOut, c.reraise)
 }
 
 func callF2(c config) string {
@@ -129,7 +139,7 @@ func source(c config) string {
 
 // ---- Go twin: panic / recover per body
 
-type raised struct{ custom bool }
+type raised struct{ custom, boom bool }
 
 type twin struct {
 	c     config
@@ -139,7 +149,7 @@ type twin struct {
 
 func (t *twin) maybeRaise(d, k int) {
 	if t.d == d && t.k == k {
-		panic(raised{raisedIsCustom(t.c.kind)})
+		panic(raised{raisedIsCustom(t.c.kind), t.c.kind == rThrowDefault || t.c.kind == rThrowCustom})
 	}
 }
 
@@ -158,10 +168,13 @@ func (t *twin) body(level int, run func() float64) (val float64, isNull bool) {
 				panic(x)
 			}
 			t.trace = append(t.trace, float64(level*10+9))
-			if t.c.kind == rThrowDefault || t.c.kind == rThrowCustom {
+			if ex.boom {
 				t.trace = append(t.trace, 777)
 			} else {
 				t.trace = append(t.trace, 778)
+			}
+			if level == 2 && t.c.reraise {
+				panic(raised{false, true})
 			}
 			if t.c.handlerOut {
 				val, isNull = float64(level*100+90), false
@@ -338,7 +351,8 @@ func H_RaiseContexts() {
 	c.handlerOut = zv.Choose(2) == 0
 	c.ctx = zv.Choose(4)
 	c.ext = zv.Choose(2) == 1
-	if zv.Tier() == 0 && c.ctx == 0 && !c.ext {
+	c.reraise = c.h[2] != hNone && zv.Choose(2) == 1
+	if zv.Tier() == 0 && c.ctx == 0 && !c.ext && !c.reraise {
 		return // H_RaisePoints covers the plain same-module call
 	}
 	if c.ext && c.kind == rThrowCustom {
